@@ -33,6 +33,7 @@ class Engine(StmtMixin, EvalMixin, Interp):
         self.calls_seen = set()
         self.trusted_used = set()
         self.order_sensitive = []
+        self.class_state = {}  # (class qualname, attribute) -> mutable class-level value, evaluated once
         self.builtins = {}
         self.externals = {}
         super().__init__(repo, **kw)
@@ -61,6 +62,8 @@ class Engine(StmtMixin, EvalMixin, Interp):
                     return FuncVal(m, self_val=target)
             if name == "__init__":
                 return BuiltinFn("object.__init__", lambda interp, a, k: None)
+            if name == "__new__":
+                return BuiltinFn("object.__new__", lambda interp, a, k: Obj(a[0].cls))
             raise PyExc("AttributeError", f"super().{name}")
         return EvalMixin.getattr(self, v, name)
 
